@@ -763,7 +763,7 @@ pub fn run(ctx: &Ctx) -> i32 {
             Err(f) => vec![(f, serde_json::to_value(ct).unwrap())],
         }
     });
-    let (shards, cases) = ctx.tier.pick((8, 1500), (32, 30_000));
+    let (shards, cases) = ctx.tier.pick((16, 6000), (32, 30_000));
     let texts_ref = &texts;
     let (s6, v6) = run_shards(
         ctx,
